@@ -51,6 +51,7 @@ def c14(ctx: Ctx):
                 "non-trivial = security-bearing or gate-failing request, or non-empty handler script")
     rng = random.Random(ctx.seed)
     ctx.samples = sample(rng, cs, 5)
-    ctx.validate("Trace_C14", "Trace_C14.cfg", logp, run_start=lambda o: o.get("ev") == "cfg")
+    # one round of chunks on 16 cores: a chunk costs a JVM start, a line almost nothing
+    ctx.validate("Trace_C14", "Trace_C14.cfg", logp, run_start=lambda o: o.get("ev") == "cfg", chunk_lines=48000)
 
 
